@@ -12,6 +12,7 @@ package tmstate
 
 import (
 	"context"
+	"github.com/gordian-engine/gordian/gwatchdog"
 
 	"github.com/gordian-engine/gordian/gcrypto"
 	"github.com/gordian-engine/gordian/internal/verifrt"
@@ -455,6 +456,7 @@ type vhSM struct {
 	ownPHInRestart   bool
 	viewsLeft        int  // how many more view updates with new numbers may be delivered (<0: no limit)
 	laterEntrancePHs bool // entrance responses after the first of a life may carry headers too
+	strictPanics     bool // a panic inside the state machine is a violation (C09) instead of the end of the path
 
 	// ghost
 	life      int // process life (restarts)
@@ -481,9 +483,6 @@ type vhSM struct {
 	th          *vhThresholds
 	avail       uint64 // available power of the validator set (symbolic, one per environment)
 	oldTimers   []*vhTimerRec
-	// the real handleCatchupEvent never returns once entered (its loop has no exit
-	// besides context cancellation): modelled faithfully as a sticky mode
-	catchupLoop bool
 }
 
 func vhNewSM(participating bool) *vhSM {
@@ -573,8 +572,9 @@ func (e *vhSM) boot() {
 
 		kernelDone: make(chan struct{}),
 	}
+	// a watchdog whose Terminate cancels the state machine's context, as in production
+	e.m.wd, e.ctx = gwatchdog.NewNopWatchdog(context.Background(), verifrt.Logger())
 	e.haveCur = false
-	e.catchupLoop = false
 	go e.envLoop(e.entranceCh, e.cm.EnterRoundRequests, e.stop)
 }
 
@@ -653,7 +653,8 @@ func (e *vhSM) committedHeader(h uint64) tmconsensus.CommittedHeader {
 			DataID:           []byte("dK"),
 			PrevAppStateHash: []byte("app"),
 		},
-		Proof: tmconsensus.CommitProof{Round: 0},
+		// the round the block was committed in: any, not necessarily the round entered
+		Proof: tmconsensus.CommitProof{Round: verifrt.U32("committed-round")},
 	}
 }
 
@@ -739,7 +740,7 @@ func (e *vhSM) released() int {
 func (e *vhSM) start() bool {
 	e.evKind = -1
 	ok := false
-	if verifrt.Panics(func() {
+	if e.panics("SM:start-up-panics", func() {
 		rlc, up := e.m.initializeRLC(e.ctx)
 		e.rlc = rlc
 		ok = up
@@ -747,9 +748,20 @@ func (e *vhSM) start() bool {
 		e.alive = false
 		return false
 	}
+	if !ok && e.strictPanics {
+		verifrt.Fail("SM:start-up-stops-the-state-machine")
+	}
 	e.alive = ok
 	e.afterEvent()
 	return ok
+}
+
+// panics runs f and reports whether it panicked; with strictPanics the panic is a violation.
+func (e *vhSM) panics(label string, f func()) bool {
+	if e.strictPanics {
+		return !verifrt.NoPanic(label, f)
+	}
+	return verifrt.Panics(f)
 }
 
 // restart: the process dies (in-memory lifecycle, channels, timers, pending strategy
@@ -773,7 +785,7 @@ func (e *vhSM) round() *vhRound { return e.rounds[e.cur] }
 func (e *vhSM) applicable(kinds []int) []int {
 	var out []int
 	rd := e.round()
-	live := !e.rlc.IsReplaying() && !e.catchupLoop
+	live := !e.rlc.IsReplaying()
 	for _, k := range kinds {
 		ok := false
 		switch k {
@@ -799,7 +811,7 @@ func (e *vhSM) applicable(kinds []int) []int {
 		case evBlockData:
 			ok = live
 		}
-		if e.catchupLoop && k != evFinalization {
+		if e.rlc.IsReplaying() && k != evFinalization {
 			ok = false
 		}
 		if ok {
@@ -853,10 +865,7 @@ func (e *vhSM) deliver(k int) bool {
 	e.evKind = k
 	e.evTimerKind = -1
 	rd := e.round()
-	if e.rlc.IsReplaying() {
-		e.catchupLoop = true
-	}
-	fromCatchup := e.catchupLoop
+	fromCatchup := e.rlc.IsReplaying()
 	switch k {
 	case evView, evViewPV, evViewPC, evHeader:
 		mode := vhGrowAll
@@ -980,9 +989,18 @@ func (e *vhSM) deliver(k int) bool {
 	}
 
 	ok := false
-	if verifrt.Panics(func() {
+	replayedFin := k == evFinalization && rd != nil && rd.catchupCH != nil
+	h0 := e.cur.h
+	if e.panics("SM:event-handler-panics", func() {
 		if fromCatchup {
-			ok = e.m.handleCatchupEventOnce(e.ctx, &e.rlc)
+			// the real catch-up handler; it has to come back to the kernel loop after the
+			// finalization it waited for (a handler that keeps looping ignores every live
+			// event from then on: the node stops serving)
+			if !verifrt.MustReturn("SM:catch-up-handler-returns-to-the-kernel-loop-after-the-finalization", func() {
+				ok = e.m.handleCatchupEvent(e.ctx, nil, &e.rlc)
+			}) {
+				ok = false
+			}
 		} else {
 			ok = e.m.handleLiveEvent(e.ctx, nil, &e.rlc)
 		}
@@ -991,18 +1009,25 @@ func (e *vhSM) deliver(k int) bool {
 		e.alive = false
 		return false
 	}
+	if ok && replayedFin {
+		// the driver finalized a header the mirror had already committed: nothing else
+		// can move the state machine on, so it has to enter the next height now
+		verifrt.Assert(e.cur.h == h0+1, "SM:finalization-of-a-replayed-header-enters-the-next-height")
+	}
+	if context.Cause(e.ctx) != nil {
+		// the state machine asked the watchdog to terminate the process
+		if e.strictPanics {
+			verifrt.Fail("SM:state-machine-terminates-the-process-through-the-watchdog")
+		}
+		ok = false
+	} else if !ok && e.strictPanics {
+		// no store fails, no strategy error and no cancellation in this environment:
+		// a handler that reports failure stops the kernel loop for good
+		verifrt.Fail("SM:event-handler-stops-the-state-machine")
+	}
 	e.alive = ok
 	e.afterEvent()
 	return ok
-}
-
-// handleCatchupEventOnce: the real handleCatchupEvent loops forever inside one call (it
-// only returns on context cancellation), so during replay the harness executes the
-// body of its single arm: the same two statements, on the real handleFinalization.
-func (m *StateMachine) handleCatchupEventOnce(ctx context.Context, rlc *tsi.RoundLifecycle) bool {
-	resp := <-rlc.FinalizeRespCh
-	rlc.S = tsi.StepAwaitingFinalization
-	return m.handleFinalization(ctx, rlc, resp)
 }
 
 // afterEvent drains what the state machine sent on buffered channels into the ghost
@@ -1133,7 +1158,7 @@ func (e *vhSM) note(h0 uint64, r0 uint32) {
 	switch {
 	case !e.alive:
 		e.seen |= vhSeenStopped
-	case e.catchupLoop || e.rlc.IsReplaying():
+	case e.rlc.IsReplaying():
 		e.seen |= vhSeenReplaying
 	default:
 		if e.cur.h != h0 {
